@@ -131,7 +131,26 @@ def gen_case(rng, tier):
     return {"cfg": cfg, "ops": ops, "variants": variants}
 
 
+def gen_spill_case(rng):
+    """A long update through a handle opened with a tiny page cache, killed before its first commit: sqlite has
+    already written pages of the unfinished transaction into the database file (cache spill), so what a fresh
+    process finds depends on the journal of the updating connection."""
+    fcfg = {"p_id": 0.0, "p_parent": 0.3, "types": ["exon", "CDS"], "seqids": ["chr1"], "pool": [1, 5, 10, 20, 30, 1000, 20000]}
+    base = G.gff3_batch(rng, rng.randint(2, 5), dict(fcfg, p_id=0.9), unique_ids=True)
+    big = G.gff3_batch(rng, rng.choice([1500, 2500]), fcfg)
+    ops = [{"op": "create", "feats": base, "form": "path", "kw": {"merge_strategy": "error"}},
+           {"op": "reopen"},
+           {"op": "update", "feats": big, "form": rng.choice(["gen", "list"]), "kw": {"merge_strategy": "create_unique", "checklines": 1,
+                                                                                    "make_backup": rng.random() < 0.5}}]
+    variants = [{"at_op": 2, "fault": {"frac": rng.uniform(0.25, 0.8), "mode": "crash"}}]
+    cfg = {"fmf": [], "keep_order": False,
+           "pragmas": {"synchronous": "NORMAL", "journal_mode": "MEMORY", "main.page_size": 4096, "main.cache_size": rng.choice([5, 10, 20])}}
+    return {"cfg": cfg, "ops": ops, "variants": variants, "spill": True}
+
+
 def gen(rng, tier):
+    if rng.random() < (0.012 if tier == "quick" else 0.02):
+        return gen_spill_case(rng)
     return gen_case(rng, tier)
 
 
@@ -175,7 +194,10 @@ class Hist(object):
         self.node = self.w.node()
 
     def open_handle(self):
-        r = self.call({"op": "open", "h": "h", "db": DB, "kw": {"keep_order": self.cfg.get("keep_order", False)}})
+        okw = {"keep_order": self.cfg.get("keep_order", False)}
+        if self.cfg.get("pragmas"):
+            okw["pragmas"] = self.cfg["pragmas"]
+        r = self.call({"op": "open", "h": "h", "db": DB, "kw": okw})
         if not r["ok"]:
             self.v("C10.reopen", "database cannot be opened: %s %s" % (r["exc"], r["msg"]), kind="open_failed")
             raise Stop()
@@ -314,12 +336,17 @@ class Hist(object):
         elif k == "add_relation":
             m.add_relation(op["parent"], op["child"], op["level"], child_func=op.get("child_func"))
 
-    def prefix_models(self, op, pre):
+    def prefix_models(self, op, pre, dump=None):
         """Allowed store states after a failed op (DESIGN §6.3)."""
         out = [("pre", pre)]
         if op["op"] == "update":
             n = len(op["feats"])
-            for k in range(1, n + 1):
+            ks = range(1, n + 1)
+            if n > 40 and dump is not None:
+                # long update: only prefixes whose size fits the number of features found
+                k0 = len(dump["features"]) - len(pre.order)
+                ks = [k for k in range(k0 - 2, k0 + 3) if 1 <= k <= n]
+            for k in ks:
                 m = pre.clone()
                 try:
                     kw = op["kw"]
@@ -365,7 +392,7 @@ class Hist(object):
                 j, r["exc"], r["msg"]), kind="unreadable_after_failure")
             raise Stop()
         d = r["dump"]
-        cands = self.prefix_models(op, pre)
+        cands = self.prefix_models(op, pre, d)
         best = None
         for name, m in cands:
             if was_strict:
@@ -724,7 +751,9 @@ def run(case):
     out["stats"] = stats
     out["trace_hash"] = core.digest(journal)
     out["nontrivial"] = nontrivial
-    out["sample"] = {"ops": [_op_summary(o) for o in case["ops"]],
+    if case.get("spill"):
+        probes["long_update_small_cache_crash"] = 1
+    out["sample"] = {"ops": [_op_summary(o) for o in case["ops"]] if not case.get("spill") else "long update through a small page cache, crash",
                      "variants": [dict(v["fault"], at_op=v["at_op"]) for v in (case.get("variants") or [])][:6]}
     return out
 
